@@ -103,6 +103,8 @@ def obligations(tier):
     for N in range(2, maxN + 1):
         for fn, func, module, stubs in cp_algos:
             for normalize in (False, True):
+                if N >= 4 and normalize and "non_negative" in fn:
+                    continue  # (order-4 normalised multiplicative / HALS sweeps exceed the per-obligation budget: orders 2-3 only)
                 for it in (0, 1):  # iteration 0 cannot break on convergence; iteration >= 1 explores both the break and the continue/cap exits
                     add(fn, f"N={N},normalize_factors={normalize},iteration-class={it}", cp_setup(N),
                         lambda I, func=func, module=module, normalize=normalize, it=it, stubs=stubs: run_cp_exit(func, module, I, dict(return_errors=True, normalize_factors=normalize), it, stubs),
